@@ -139,7 +139,8 @@ func (p *Path) TreePrefix() string {
 			// path; otherwise it is a tree-ish `<rev>`, and the
 			// path starts after a colon.
 			switch {
-			case strings.HasSuffix(p.relativePath, ":"):
+			case strings.HasSuffix(p.relativePath, ":"),
+				strings.HasSuffix(p.relativePath, "/"):
 				return p.relativePath
 			case strings.Contains(p.relativePath, ":"):
 				return p.relativePath + "/"
